@@ -337,7 +337,8 @@ impl Ctx {
                     if let Some((k, _d)) = absorb(&mut st, c, o, &mut self.distinct) {
                         // shrink with proptest's value tree
                         let mut tree = trees.swap_remove(i);
-                        let (bc, bk, bd, bt) = shrink(p, &mut tree, &k, params.shrink_steps);
+                        let steps = if std::env::var("PV_NO_SHRINK").is_ok() { 0 } else { params.shrink_steps };
+                        let (bc, bk, bd, bt) = shrink(p, &mut tree, &k, steps);
                         failure = Some((bc, bk, bd, Some(bt)));
                         break 'outer;
                     }
